@@ -74,7 +74,7 @@ where
                 while let Some(b) = get_current_byte!(self) {
                     match b {
                         b'\\' => match get_byte!(self, self.ptr + 1) {
-                            Some(b'\\') | Some(b'{') | Some(b'"') => self.ptr += 2,
+                            Some(b'\\') | Some(b'"') => self.ptr += 2,
                             Some(b'u') => {
                                 self.ptr += 2;
                                 self.skip_unicode_escape_sequence(4)?;
